@@ -61,3 +61,22 @@ fn c12c_many_chunks_do_not_overflow() {
     let r = sign.process_message(&Message::QueryState(Address(1)));
     assert!(matches!(r, Some(Message::ReportState(Address(1), State::PixelsReceived | State::PixelsFailed))));
 }
+
+// C14/C13: an unaddressed DataChunksSent changes the stored pages of a sign that is NOT in a receiving state:
+// a transfer abandoned by StartReset leaves a complete page in the buffer; a later chunk-count message (which on a
+// shared bus belongs to another sign's transfer) flushes it into pages() while the sign sits in ReadyToReset.
+#[test]
+fn c14_idle_sign_untouched_by_chunk_count() {
+    let mut sign = VirtualSign::new(Address(1), PageFlipStyle::Manual);
+    configure(&mut sign, SignType::Max3000Dash30x7.to_bytes());
+    sign.process_message(&Message::RequestOperation(Address(1), Operation::ReceivePixels));
+    for i in 0..3u16 {
+        sign.process_message(&Message::SendData(Offset(i * 16), Data::try_new(vec![0u8; 16]).unwrap()));
+    }
+    sign.process_message(&Message::RequestOperation(Address(1), Operation::StartReset));
+    assert_eq!(sign.state(), State::ReadyToReset);
+    let before = sign.pages().len();
+    sign.process_message(&Message::DataChunksSent(ChunkCount(7))); // some other sign's transfer ends
+    assert_eq!(sign.state(), State::ReadyToReset);
+    assert_eq!(sign.pages().len(), before, "stored pages of an idle sign changed by an unaddressed message");
+}
